@@ -100,6 +100,15 @@ class gre (packet_base):
         return s + "]"
 
     def parse(self, raw):
+        try:
+            self._parse(raw)
+        except struct.error:
+            self.msg('warning GRE packet data too short for its '
+                     + 'optional fields')
+            self.parsed = False
+            self.next = None
+
+    def _parse(self, raw):
         assert isinstance(raw, bytes)
         self.raw = raw
         dlen = len(raw)
